@@ -13,7 +13,7 @@ From Coq Require Import List NArith ZArith Bool.
 Import ListNotations.
 Require Import MV.C11.Model MV.C11.Spec MV.C11.Exec MV.C11.ProofsFraming MV.C11.ProofsInv
         MV.C11.ProofsState MV.C11.ProofsCount MV.C11.ProofsOrder MV.C11.ProofsWire MV.C11.ProofsReflect
-        MV.C11.ProofsStream MV.C11.ProofsBook MV.C11.ProofsMain MV.C11.ProofsSpecOk.
+        MV.C11.ProofsStream MV.C11.ProofsBook MV.C11.ProofsMain MV.C11.ProofsSpecOk MV.C11.Wake.
 From Coq Require Import Permutation.
 Open Scope N_scope.
 
@@ -151,3 +151,15 @@ Theorem C11_example_run :
     lookup 2 (clients sf) = Some c /\ overflowed c = false /\ obs_ok obs = true /\
     split_frames (sent c) = ([[10; 11; 10; 1; 109; 16; 1; 26; 1; 115; 34; 1; 100]; [7; 7]; [8; 8]; [7; 7]], []).
 Proof. exact example_run. Qed.
+
+(* The emitter -> transport wake-up handshake, in the separate interleaving model of Wake.v
+   (push_metric = try_send then wake; mio waker; the WAKER arm's receive loop; any number of
+   emitting threads, any schedule, any channel capacity).  This small model is not tied to the code
+   by trace validation; the free-running engine of the check is its only tie to /repo. *)
+Theorem C11_wake_always_never_stuck : forall n cap ls s,
+  wrun WakeAlways cap (winit n) ls = Some s -> ~ stuck s.
+Proof. exact wake_always_never_stuck. Qed.
+
+Theorem C11_wake_if_was_empty_gets_stuck :
+  exists s, wrun WakeIfWasEmpty 4096 (winit 1) lost_wakeup_schedule = Some s /\ stuck s.
+Proof. exact wake_if_was_empty_gets_stuck. Qed.
